@@ -67,6 +67,13 @@ type Case struct {
 	// Deferred: the reply to a message is written while the NEXT message is being handled (the
 	// last one's at the end of its own handler) - when another stream may be the current one.
 	Deferred bool `json:"deferred,omitempty"`
+	// Adaptor: the association is not consumed by diam.NewConn's loop but by a stream-unaware
+	// application through the io.Reader / io.Writer adaptors of the association, used as documented:
+	// ResetCurrentStream before each message, diam.ReadMessage over the bare io.Reader (io.ReadFull of
+	// the header, then of the body: the first Read pins the stream), CurrentStream() for the stream the
+	// message came from; the reply goes through Write - to the current read stream, or to the writer
+	// stream set with SetWriterStream when the reply is deferred (and for some messages anyway).
+	Adaptor bool `json:"adaptor,omitempty"`
 }
 
 // countingAssoc is an application's wrapper around an association: everything is forwarded.
@@ -243,7 +250,16 @@ func (c *Case) chunks() []memnet.Chunk {
 // every backend it was ever given reachable (package-level registry), so the
 // shell lets go of the backend - and with it of all chunk and write records -
 // when the case is over; what stays behind is a few words per case.
-type shell struct{ p atomic.Pointer[memnet.SCTP] }
+type shell struct {
+	p atomic.Pointer[memnet.SCTP]
+	// lateInfo: SCTPWrite looks at the ancillary data the way a socket does - some time after the call
+	// was made: when another writer has come in, 2 ms later at most. The caller owns *info until the
+	// call returns, so this must not matter.
+	lateInfo bool
+	entered  int64
+	answers  int64         // writes without the R bit that the backend has recorded
+	poke     chan struct{} // poked after every write (capacity 1), when set
+}
 
 func newShell(be *memnet.SCTP) *shell { s := &shell{}; s.p.Store(be); return s }
 func (s *shell) release()             { s.p.Store(nil) }
@@ -256,10 +272,27 @@ func (s *shell) SCTPRead(b []byte) (int, *sctp.SndRcvInfo, error) {
 }
 
 func (s *shell) SCTPWrite(b []byte, info *sctp.SndRcvInfo) (int, error) {
-	if be := s.p.Load(); be != nil {
-		return be.SCTPWrite(b, info)
+	be := s.p.Load()
+	if be == nil {
+		return 0, memnet.ErrClosed
 	}
-	return 0, memnet.ErrClosed
+	if s.lateInfo {
+		me := atomic.AddInt64(&s.entered, 1)
+		for t0 := time.Now(); atomic.LoadInt64(&s.entered) == me && time.Since(t0) < 2*time.Millisecond; {
+			time.Sleep(20 * time.Microsecond)
+		}
+	}
+	n, err := be.SCTPWrite(b, info)
+	if err == nil && len(b) >= 20 && b[4]&0x80 == 0 {
+		atomic.AddInt64(&s.answers, 1)
+	}
+	if s.poke != nil {
+		select {
+		case s.poke <- struct{}{}:
+		default:
+		}
+	}
+	return n, err
 }
 
 func (s *shell) Close() error {
@@ -338,13 +371,15 @@ func runCase(c Case) *ev.Failure {
 		pending func() error
 	)
 	mux := diam.NewServeMux()
-	mux.HandleFunc("ALL", func(conn diam.Conn, m *diam.Message) {
+	// handle is what the application does with a message it was handed: stream tells the stream the
+	// message is reported to have arrived on, writeReply writes an answer built from it.
+	handle := func(m *diam.Message, stream func() uint, writeReply func(a *diam.Message) error) {
 		if m.Header.EndToEndID&2 != 0 {
 			// a relay: the request is first forwarded to another peer, on a stream of that
 			// association; where it came from, and where its answer goes, is not affected
 			m.WriteToStream(io.Discard, uint(m.MessageStream()+5))
 		}
-		d := delivery{stream: m.MessageStream(), hdr: *m.Header, navp: len(m.AVP)}
+		d := delivery{stream: stream(), hdr: *m.Header, navp: len(m.AVP)}
 		if len(m.AVP) > 0 {
 			d.code, d.flags = m.AVP[0].Code, m.AVP[0].Flags
 			if m.AVP[0].Data != nil {
@@ -366,16 +401,7 @@ func runCase(c Case) *ev.Failure {
 		}
 		a.NewAVP(tagCode, tagFlags, 0, datatype.OctetString(short))
 		var err error
-		write := func() error {
-			if m.Header.EndToEndID&4 != 0 {
-				// written to the association itself (a MultistreamWriter that is not the handler's
-				// Conn), as an application that runs its own read loop on the association does
-				_, e := a.WriteTo(conn.Connection())
-				return e
-			}
-			_, e := a.WriteTo(conn)
-			return e
-		}
+		write := func() error { return writeReply(a) }
 		if c.Deferred {
 			mu.Lock()
 			prev := pending
@@ -400,6 +426,18 @@ func runCase(c Case) *ev.Failure {
 			werr = append(werr, fmt.Sprintf("reply to %s: %v", label(d.tag), err))
 		}
 		mu.Unlock()
+	}
+	mux.HandleFunc("ALL", func(conn diam.Conn, m *diam.Message) {
+		handle(m, m.MessageStream, func(a *diam.Message) error {
+			if m.Header.EndToEndID&4 != 0 {
+				// written to the association itself (a MultistreamWriter that is not the handler's
+				// Conn), as an application that runs its own read loop on the association does
+				_, e := a.WriteTo(conn.Connection())
+				return e
+			}
+			_, e := a.WriteTo(conn)
+			return e
+		})
 	})
 	// error reports: drained continuously, kept for the diagnosis
 	var reports []string
@@ -430,7 +468,35 @@ func runCase(c Case) *ev.Failure {
 	if c.Wrapped {
 		assoc = &countingAssoc{MultistreamConn: assoc.(diam.MultistreamConn)}
 	}
-	if _, err := diam.NewConn(assoc, "", mux, dict.Default); err != nil {
+	if c.Adaptor {
+		msc := assoc.(diam.MultistreamConn)
+		go func() {
+			defer assoc.Close()
+			r, w := struct{ io.Reader }{msc}, struct{ io.Writer }{msc} // nothing but Read and Write
+			for {
+				msc.ResetCurrentStream()
+				m, err := diam.ReadMessage(r, dict.Default)
+				if err != nil {
+					if err != io.EOF {
+						mu.Lock()
+						reports = append(reports, fmt.Sprintf("ReadMessage through the Read adaptor: %v", err))
+						mu.Unlock()
+					}
+					return
+				}
+				stream := msc.CurrentStream()
+				handle(m, func() uint { return stream }, func(a *diam.Message) error {
+					if c.Deferred || m.Header.EndToEndID&4 != 0 {
+						// another stream may be the current one by now: the writer stream goes first
+						msc.SetWriterStream(stream)
+						defer msc.ResetWriterStream()
+					}
+					_, e := a.WriteTo(w)
+					return e
+				})
+			}
+		}()
+	} else if _, err := diam.NewConn(assoc, "", mux, dict.Default); err != nil {
 		be.Close()
 		return ev.Failf("harness-conn", "NewConn: %v", err)
 	}
@@ -685,6 +751,9 @@ func classify(c Case) (bool, []string) {
 	if c.Deferred {
 		cl["reply-written-while-the-next-message-is-handled"] = true
 	}
+	if c.Adaptor {
+		cl["consumed-through-the-read-write-adaptors"] = true
+	}
 	// merged position of every chunk of every stream
 	pos := make([][]int, len(c.Streams))
 	for n, k := range c.Merge {
@@ -932,6 +1001,7 @@ func genCase(t *rapid.T) Case {
 	c.AnswersToo = rapid.Bool().Draw(t, "answers-too")
 	c.Wrapped = rapid.IntRange(0, 2).Draw(t, "wrapped") == 0
 	c.Deferred = rapid.IntRange(0, 2).Draw(t, "deferred") == 0
+	c.Adaptor = rapid.IntRange(0, 4).Draw(t, "adaptor") == 0
 	var n int
 	switch k := rapid.IntRange(0, 9).Draw(t, "streams-class"); {
 	case k < 1:
@@ -1130,7 +1200,7 @@ func enumerateSmall(yield func(Case) bool) {
 						ids := idPairs[n%len(idPairs)]
 						n++
 						c := Case{Streams: []StreamPlan{{ID: ids[0], Sizes: a.sizes, Chunks: ca}, {ID: ids[1], Sizes: b.sizes, Chunks: cb}},
-							Merge: m, Cmd: n % 7, Late: n%16 == 0, AnswersToo: n%3 == 0, Wrapped: n%5 == 0, Deferred: n%4 == 1}
+							Merge: m, Cmd: n % 7, Late: n%16 == 0, AnswersToo: n%3 == 0, Wrapped: n%5 == 0, Deferred: n%4 == 1, Adaptor: n%11 == 4}
 						if !yield(c) {
 							return
 						}
@@ -1151,6 +1221,8 @@ const rule = "scenario = 1..16 streams (ids 0..15), per stream 0..6 request mess
 	"once, in order; exactly one reply per message recorded by the backend on the origin stream with the Diameter PPID; the loop closes the transport after EOF. " +
 	"1 in 6 cases another association of the same process has died of a read error in mid-message just before, with complete messages still buffered for 1..6 of the case's stream numbers: nothing of it may show. " +
 	"In half of the cases every third message is an answer (no R bit); in a third the association reaches NewConn behind an application's wrapper type (a counting MultistreamConn); in a third each reply is written while the NEXT message is being handled. " +
+	"In a fifth of the cases the association is consumed not by diam.NewConn but by a stream-unaware application through the association's io.Reader / io.Writer adaptors as documented " +
+	"(ResetCurrentStream, diam.ReadMessage over the bare io.Reader, CurrentStream() as the message's stream; the reply through Write: to the current read stream, or to the writer stream set with SetWriterStream when deferred); same demands. " +
 	"non-trivial = >= 2 streams carrying messages and >= 1 message between whose first and last chunk a chunk of another stream arrives"
 
 var prop = ev.Register(&ev.Prop[Case]{
@@ -1164,7 +1236,7 @@ var prop = ev.Register(&ev.Prop[Case]{
 var small = ev.Register(&ev.Prop[Case]{
 	ID: "C19", Name: "small-exhaustive",
 	Rule: "EXHAUSTIVE: 1 stream, and 2 streams x {0, 1, 2} messages of 36 bytes x every split of each stream's bytes into <= 3 chunks at the cut positions " +
-		"{1, 19, 20, 21, len-1, len} of each message (thorough: more positions, a second message length, a third id pair) x every merge of the two chunk sequences; same consumer and oracle as the random test; " +
+		"{1, 19, 20, 21, len-1, len} of each message (thorough: more positions, a second message length, a third id pair) x every merge of the two chunk sequences; same consumers (1 in 11 through the Read / Write adaptors) and oracle as the random test; " +
 		"non-trivial = >= 2 streams carrying messages and >= 1 message between whose first and last chunk a chunk of the other stream arrives",
 	Gen: genCase, Run: runCase, Classify: classify, Attempts: 5,
 	Sample: func(c Case) interface{} {
